@@ -79,6 +79,8 @@
                    C04_cycle_search_iff) the number of levels is at most the sum of the depths of
                    the operation and the fragments, hence at most [default_fuel D], the value the
                    check evaluates; with a cycle such as F on O { o { ...F } } no n works.
+                   [C01_doc_ok_intro] packages this: an n-free invariant Q plus a terminating
+                   level count give [doc_ok] with n = levels + 1.
         Not needed from validation at all: 5.2.x beyond the root type, 5.3.2 (field merging: the
         executor merges whatever it is given), 5.4 / 5.6 for field arguments, 5.5.2.x, 5.8 beyond
         what (b) uses.
@@ -103,7 +105,7 @@ From ApiFu Require Val.Values.
 From ApiFu Require Import Base.Sexp ExeA.ArgData ExeA.ArgArgs ExeA.ArgModel ExeA.ArgSpec ExeA.ArgHyps
      ExeA.ArgBaseProofs ExeA.ArgSpecProofs ExeA.ArgCacheProofs ExeA.ArgProofs
      ExeA.ArgOrderProofs ExeA.ArgShapeProofs ExeA.ArgFuelProofs ExeA.ArgVisibleProofs ExeA.ArgRequestProofs
-     ExeA.ArgKeyOrder ExeA.ArgKeyOrderProofs.
+     ExeA.ArgKeyOrder ExeA.ArgKeyOrderProofs ExeA.ArgLevelProofs.
 Import ListNotations.
 
 (** The executor finishes: no panic, fragment expansion never runs out of fuel. *)
@@ -315,6 +317,35 @@ Theorem C01_doc_ok_mono : forall S D E fuel n m,
   (n <= m)%nat -> doc_ok S D E fuel n = true -> doc_ok S D E fuel m = true.
 Proof. exact doc_ok_mono. Qed.
 
+(** how an n is exhibited (round 6).  [lv D sels n]: the field nesting of [sels], fragment spreads
+    expanded, is at most n levels ([ArgLevelProofs.lv]; a derivation exists only if the expansion
+    terminates); [levels D k sels] computes it with k as the fuel of the expansion and is sound.
+    Every field node CollectFields returns has sub-selections one level lower, so an n-free
+    invariant Q of (object type, selection list) — it guarantees collection and the local
+    conditions [group_local] and is inherited by the merged sub-selections — gives [doc_ok] with
+    n = levels + 1.  C04 supplies Q ("validated selection set for parent type ot"), [conds_ok],
+    the root type, and — from C04_spreads_silent_acyclic — the termination of [levels]; that last
+    implication (no fragment reaches itself => [levels (length (frags D)) _ = Some _], and the
+    value is at most [default_fuel D]) is NOT proved here; the check evaluates it per case
+    (never violated on a validated document; undefined only for the hostile stream's cyclic fragments). *)
+Theorem C01_levels_sound : forall D k sels n, levels D k sels = Some n -> lv D sels n.
+Proof. exact levels_sound. Qed.
+
+Theorem C01_collected_nodes_are_one_level_lower : forall S D E fuel ot sels visited v flat n,
+  lv D sels n -> s_collect_flat S D E fuel ot sels visited = Some (v, flat) ->
+  Forall (fun kf => exists m, n = Datatypes.S m /\ lv D (fn_sub (snd kf)) m) flat.
+Proof. exact collected_lower. Qed.
+
+Theorem C01_doc_ok_intro : forall S D E fuel (Q : name -> list selection -> Prop) rt k n,
+  conds_ok S D E = true ->
+  s_root_type S (op_kind D) = Some rt ->
+  (forall ot sels, Q ot sels ->
+     exists groups, s_collect S D E fuel ot sels = Some groups /\ Forall (group_local S D Q ot) groups) ->
+  Q rt (op_sels D) ->
+  levels D k (op_sels D) = Some n ->
+  doc_ok S D E fuel (Datatypes.S n) = true.
+Proof. exact doc_ok_intro. Qed.
+
 (** ... and depth + 1 levels are not enough in general *)
 Theorem C01_level_bound_depth_plus_one_refuted :
   exists S D E,
@@ -391,6 +422,9 @@ Print Assumptions C01_exec_order.
 Print Assumptions C01_selection_set_order.
 Print Assumptions C01_exec_error_shape.
 Print Assumptions C01_doc_ok_mono.
+Print Assumptions C01_levels_sound.
+Print Assumptions C01_collected_nodes_are_one_level_lower.
+Print Assumptions C01_doc_ok_intro.
 Print Assumptions C01_level_bound_depth_plus_one_refuted.
 Print Assumptions C01_collect_fuel_sufficient.
 Print Assumptions C01_spec_selection_set_wf.
